@@ -89,3 +89,22 @@ func lemmaStoreReadyFor(hs *store.HStore, ki *store.KeyInfo) bool { return true 
 //@   ints bv
 //@   requires s != nil && s.hstore != nil && store.SpecStoreOK(s.hstore)
 //@   modifies *
+
+// "get @@<key hash>" and the other special keys. Variant contract (body only, scope: keys starting
+// with '@'): what reaches HStore.GetRecordByKeyHash is a full 16-digit path, what reaches listDir is
+// checked by listDir's own contract.
+//@ func (s *StorageClient) Get variant special
+//@   props C11
+//@   ints bv
+//@   nosafety
+//@   unreachable_ok only keys starting with '@' are in the scope of this variant: the '?' keys and ordinary keys are dead here
+//@   requires s != nil && s.hstore != nil && store.SpecStoreOK(s.hstore) && 1 <= len(key) && len(key) <= 255 && key[0] == '@'
+//@   modifies *
+
+// the admin web handler /keyhash/<16 hex digits>
+//@ func handleKeyhash
+//@   props C11
+//@   ints bv
+//@   nosafety
+//@   requires r != nil && r.URL != nil && w != nil && storage != nil && storage.hstore != nil && store.SpecStoreOK(storage.hstore)
+//@   modifies *
